@@ -35,6 +35,7 @@ type world struct {
 	n      *node.Node
 	la     int
 	fresh  map[int]bool
+	bad    map[int]bool // entries appended as bytes the replicator cannot decompress
 	out    *vh.Out
 	failed bool
 	evs    []string
@@ -95,6 +96,15 @@ func (w *world) appendEntry(fresh bool) {
 	pm := &protoMetricsV1.Metric{Name: nameOf(e, fresh), Namespace: "ns", Timestamp: familyTime + int64(e)*interval.Int64(),
 		SimpleFields: []*protoMetricsV1.SimpleField{{Name: "f1", Type: protoMetricsV1.SimpleFieldType_DELTA_SUM, Value: 1}}}
 	if err := w.n.Part.WriteLog(node.Compressed(node.Block(pm))); err != nil {
+		w.fail("WriteLog", err)
+	}
+}
+
+// appendBad appends an entry that is not a compressed block: the replicator cannot decode it.
+func (w *world) appendBad() {
+	w.la++
+	w.bad[w.la] = true
+	if err := w.n.Part.WriteLog([]byte{0xff, 0x00, 0xfe, 0x01, 0xfd, 0x02, 0xfc}); err != nil {
 		w.fail("WriteLog", err)
 	}
 }
@@ -291,6 +301,11 @@ func (w *world) r1() {
 	if !w.canConsume() || w.actor != nil {
 		return
 	}
+	if w.bad[int(w.n.Group.ConsumedSeq())+2] {
+		// the regions of a step are modelled for entries that carry rows only
+		w.replicaWhole()
+		return
+	}
 	a := &actor{resume: make(chan struct{}), parked: make(chan string), done: make(chan struct{})}
 	current = a
 	part := w.n.Part
@@ -319,7 +334,7 @@ func (w *world) rnext(ev string) {
 }
 
 func runHistory(out *vh.Out, root string, id int, name, sig string, disc bool, script []string) {
-	w := &world{root: filepath.Join(root, fmt.Sprintf("h%d", id)), fresh: map[int]bool{}, out: out, kinds: map[string]int{}}
+	w := &world{root: filepath.Join(root, fmt.Sprintf("h%d", id)), fresh: map[int]bool{}, bad: map[int]bool{}, out: out, kinds: map[string]int{}}
 	_ = os.MkdirAll(w.root, 0o755)
 	defer os.RemoveAll(w.root)
 	n, err := node.Open(filepath.Join(w.root, "img0"), option.Intervals{{Interval: interval}}, familyTime, true)
@@ -340,6 +355,9 @@ func runHistory(out *vh.Out, root string, id int, name, sig string, disc bool, s
 		case "A":
 			w.appendEntry(true)
 			w.emit("Append true")
+		case "z":
+			w.appendBad()
+			w.emit("AppendBad")
 		case "r":
 			w.replicaWhole()
 		case "r1":
@@ -427,8 +445,10 @@ func randomScript(r *vh.Rand) []string {
 	for i := 0; i < n; i++ {
 		x := r.Intn(100)
 		switch {
-		case x < 25:
+		case x < 22:
 			sc = append(sc, "a")
+		case x < 25:
+			sc = append(sc, "z")
 		case x < 32:
 			sc = append(sc, "A")
 		case x < 62:
@@ -471,8 +491,10 @@ func main() {
 		f("a a r m r1 r2 f r3 x r m f"))
 	runHistory(out, root, 3, "a new metric is written after the metadata flush and before the data flush", "new-name-between-meta-and-data-flush", false,
 		f("a r m A r f x A r"))
+	runHistory(out, root, 4, "entries the replicator cannot decode, between applied entries, directly after the acknowledged position, before a crash", "", true,
+		f("a a z a r r r r x r r r r m f z r s x a z z a r r r r m f s x"))
 	for i := 0; i < cfg.N; i++ {
-		runHistory(out, root, 4+i, "random", "", true, randomScript(r))
+		runHistory(out, root, 5+i, "random", "", true, randomScript(r))
 	}
 	out.Notes = append(out.Notes, "every history ends with a crash image, a replay of everything the log still offers, and a flush in the flush checker's order; a crash is a copy of the node directory (tsdb + wal) opened as a new node")
 	out.Finish()
